@@ -695,8 +695,48 @@ impl<'a, C: SimCfg> Runner<'a, C> {
                     ));
                 }
             }
+            // the answers must stay right when the recovered engine is used
+            // further: one more session that changes every input (a store in
+            // which, say, a node is present without its backward edges
+            // answers correctly until then) - added after seeded change C08-5
+            drop(te);
+            {
+                let mut s = e.clone().input_session().await;
+                for (n, v) in &seen {
+                    let mut nv = v.clone();
+                    nv.insert(0, nv.first().copied().unwrap_or(0).wrapping_add(1));
+                    nv.truncate(3);
+                    if nv == *v {
+                        nv = vec![9];
+                    }
+                    s.set_input(In(*n), nv.clone()).await;
+                    model.inputs.insert(*n, nv);
+                }
+                s.commit().await;
+                model.clear_memo();
+                model.epoch = 2;
+            }
+            let te = e.clone().tracked().await;
+            for n in 0..prog.len() {
+                repair_tfc_node(&te, prog, n).await;
+            }
+            for n in (0..prog.len()).rev() {
+                let v = query_node(&te, prog, n).await;
+                let want = model.fs(n);
+                if v != want {
+                    return Err(fail(
+                        "crash_wrong_value",
+                        format!(
+                            "crash after physical commit {j}/{m} (inputs of session {k}), then one more session that changes every input: node {n} ({:?}) = {v:?}, from-scratch = {want:?}",
+                            prog.kind(n)
+                        ),
+                    ));
+                }
+            }
+            drop(te);
+        } else {
+            drop(te);
         }
-        drop(te);
         let mut spins = 0u32;
         while Arc::strong_count(&e) > 1 && spins < 100_000 {
             tokio::task::yield_now().await;
